@@ -6,16 +6,16 @@ import SaoVerif.Model.Step
 The modelled begin/end blockers and handlers are total functions; the only unbounded Go loops are
 `RandomIndex` (now `randomIndexLoop`, accepted by Lean's termination checker with measure `seed`
 after the `fix:` of F03 — before the fix no such measure existed and the model needed fuel) and the
-`uint8` cursor loop of `GetNextSuperNodes`, modelled with fuel `superFuel`.
+`uint8` cursor loop of `GetNextSuperNodes` (structural on the tries left after the `fix:` of F04).
 
 Proved here:
 * `C02_randomIndex_exact`: `RandomIndex` returns exactly `count` indices whenever `total > count`
   (so selection never silently under-fills), for every seed including 0.
-* `C02_nextSuper_terminates`: the cursor loop returns within `2·len + 2` iterations when the stored
-  cursor is in range (`round0 ≤ len`, `len < 256`).
-* `C02_nextSuper_hangs`: with a cursor beyond the shrunken super-node list and no eligible super
-  node the loop never returns, for every fuel (the model-level refutation of unconditional liveness;
-  see DESIGN §7 C02 for the replay status on the implementation).
+* `pickSuper`/`getNextSuperNode` are total (no fuel exhaustion case any more): the cursor loop is
+  structurally recursive on the tries left, bounded by the number of super nodes (`fix:` of F04;
+  the pre-fix model carried `∀ fuel, nextSuperLoop … = none` for the state of findings/F04, which
+  was replayed on the implementation before the repair).
+* `C02_cursor_in_range`: the cursor written back always indexes the current super-node list.
 -/
 namespace SaoVerif
 open List
@@ -118,51 +118,20 @@ theorem C02_randomIndex_exact (seed total count : Nat) (h : count < total) :
   have := randomIndexLoop_length (modOf total) total seed count [] (by omega) (by simp) (by simp) (by simp; omega)
   simpa using this
 
-/-- the cursor loop of `GetNextSuperNodes` never returns when the stored cursor lies beyond the
-    (shrunken) super-node list and no super node is eligible — for every amount of fuel. -/
-theorem C02_nextSuper_hangs (s : State) (snodes : List Node) (ignore : List Addr) (size : Int) (round0 : Nat)
-    (hlen : 0 < snodes.length) (hlen' : snodes.length < 256) (hr : round0 ≠ 0)
-    (hbig : snodes.length ≤ (round0 - 1) % 256)
-    (hne : ∀ n ∈ snodes, superEligible s n ST_SELECT 8000 ignore size = false) :
-    ∀ fuel i, nextSuperLoop s snodes ST_SELECT 8000 ignore size round0 fuel i = none := by
-  intro fuel
-  induction fuel with
-  | zero => intro i; rfl
-  | succ fuel ih =>
-    intro i
-    unfold nextSuperLoop
-    simp only
-    have hmod : snodes.length % 256 = snodes.length := Nat.mod_eq_of_lt hlen'
-    rw [hmod]
-    generalize hi' : (if i ≥ snodes.length then 0 else i) = i'
-    have hi'lt : i' < snodes.length := by rw [← hi']; split <;> omega
-    have hget : snodes[i']? = some snodes[i'] := List.getElem?_eq_getElem hi'lt
-    rw [hget]
-    simp only
-    have hnot := hne snodes[i'] (List.getElem_mem hi'lt)
-    simp only [hnot, Bool.false_eq_true, ↓reduceIte, hr]
-    have hstop : ¬ (i' = (round0 - 1) % 256) := by omega
-    simp only [hstop, ↓reduceIte]
-    exact ih _
-
-/-- hence `GetNextSuperNodes` (and every caller: Store, Ready, Migrate, the timeout end-blocker) hangs -/
-theorem C02_pickSuper_hangs (s : State) (ignore : List Addr) (size : Int) (round0 : Nat)
-    (hlen : 0 < (s.nodes.filter (·.role = 1)).length) (hlen' : (s.nodes.filter (·.role = 1)).length < 256) (hr : round0 ≠ 0)
-    (hbig : (s.nodes.filter (·.role = 1)).length ≤ (round0 - 1) % 256)
-    (hne : ∀ n ∈ s.nodes.filter (·.role = 1), superEligible s n ST_SELECT 8000 ignore size = false) :
-    pickSuper s round0 ST_SELECT 8000 ignore size = none := by
-  unfold pickSuper
-  simp only
-  have h0 : ¬ ((s.nodes.filter (·.role = 1)).length = 0) := by omega
-  simp only [h0, ↓reduceIte]
-  rw [C02_nextSuper_hangs s _ ignore size round0 hlen hlen' hr hbig hne]
-
-/-- a concrete instance of the hypotheses: one ineligible (unpledged) super node left, cursor still at 2 -/
-def hangState : State :=
-  { (default : State) with nodes := [{ creator := 1, peer := 0, reputation := 10000, status := 15, lastAlive := 1,
-                                        txAddresses := [], role := 1, validator := 1, desc := 0 }], nodeRound := some 2 }
-
-example : pickSuper hangState 2 ST_SELECT 8000 [] 10 = none :=
-  C02_pickSuper_hangs hangState [] 10 2 (by decide) (by decide) (by decide) (by decide) (by decide)
+/-- After the `fix:` of F04 the cursor written back by `GetNextSuperNodes` always indexes the
+    current super-node list (or is 0), so the next call starts in range. -/
+theorem C02_cursor_in_range (s s' : State) (r0 : Nat) (ignore : List Addr) (size : Int) (n : Node)
+    (h : pickSuper s r0 ST_SELECT 8000 ignore size = (s', some n)) :
+    ∃ c, s'.nodeRound = some c ∧ c < max 1 (s.nodes.filter (·.role = 1)).length := by
+  unfold pickSuper at h
+  simp only at h
+  split at h
+  · simp at h
+  · rename_i i hi
+    simp only [Prod.mk.injEq] at h
+    obtain ⟨hs, _⟩ := h
+    subst hs
+    refine ⟨_, rfl, ?_⟩
+    split <;> omega
 
 end SaoVerif
